@@ -84,7 +84,7 @@ def _path_to(fnode, target_stmt):
     return rec(fnode.body)
 
 
-def find_store(fnode, key=None, name=None):
+def find_store(fnode, key=None, name=None, subscript_only=False):
     """(statement, value expression) of the last store of dict key `key` (subscript store or dict-literal entry) or of local `name`."""
     found = None
 
@@ -100,7 +100,7 @@ def find_store(fnode, key=None, name=None):
                         found = (st, st.value)
                     if name is not None and isinstance(t, ast.Name) and t.id == name:
                         found = (st, st.value)
-                if key is not None:
+                if key is not None and not subscript_only:
                     for d in ast.walk(st.value):
                         if isinstance(d, ast.Dict):
                             for k_, v_ in zip(d.keys, d.values):
@@ -158,11 +158,12 @@ def _last_mutation(fnode, name):
     return last
 
 
-def value_of(it, func, env, key=None, name=None):
+def value_of(it, func, env, key=None, name=None, final=False):
     """Interpret the slice of the stored value on the sample environment `env` (mutated in place); returns the value.
 
     key:  the value stored under dict key `key` (subscript store, dict literal entry)
-    name: the local `name` after the last statement that changes it"""
+    name: the local `name` after the last statement that changes it
+    final (with key): the entry `key` of the dict it is stored into, after the last store and the conditionals around it"""
     if name is not None and key is None:
         stmt = _last_mutation(func.node, name)
         if stmt is None:
@@ -177,6 +178,39 @@ def value_of(it, func, env, key=None, name=None):
             if name not in env:
                 raise AnalysisError(f"sliceint: {name!r} not defined by its slice")
             return env[name]
+        finally:
+            it.ctx.pop()
+    if final and key is not None:
+        found = find_store(func.node, key=key, subscript_only=True)
+        if found is None:
+            raise AnalysisError(f"sliceint: no subscript store of {key!r} in {func.key}")
+        stmt, _v = found
+        base = stmt.targets[0] if isinstance(stmt, ast.Assign) else stmt.target
+        while isinstance(base, (ast.Subscript, ast.Attribute)):
+            base = base.value
+        if not isinstance(base, ast.Name):
+            raise AnalysisError(f"sliceint: store of {key!r} is not into a named dict")
+        path = _path_to(func.node, stmt)
+        # lift through enclosing conditionals (their tests decide whether the store happens), not through loops
+        top = stmt
+        for depth in range(len(path) - 2, -1, -1):
+            block, idx = path[depth]
+            parent = block[idx]
+            if isinstance(parent, (ast.If, ast.Try, ast.With)):
+                top = parent
+            else:
+                break
+        probe = ast.Tuple(elts=[ast.Name(id=base.id, ctx=ast.Load())] + [ast.Name(id=n, ctx=ast.Load()) for n in sorted(_loads(top))], ctx=ast.Load())
+        chosen = slice_for(func.node, top, probe) + [top]
+        it.ctx.append(func.module)
+        try:
+            r = it.block(chosen, env)
+            if r is not None:
+                raise AnalysisError(f"sliceint: the slice of {key!r} leaves the function early")
+            d = env.get(base.id)
+            if not isinstance(d, dict) or key not in d:
+                raise AnalysisError(f"sliceint: {base.id}[{key!r}] not defined by its slice")
+            return d[key]
         finally:
             it.ctx.pop()
     found = find_store(func.node, key=key, name=name)
